@@ -32,9 +32,10 @@ J2 == ObjBody([DashLeaves EXCEPT !["v"] = "J2", !["a"] = "s1"])
 J3 == ObjBody([DashLeaves EXCEPT !["v"] = "J3", !["n"] = "{}", !["n.x"] = "s2"])
 R1 == RawBody(<<"R1">>)
 R2 == RawBody(<<"R2">>)
+R0 == RawBody(<<>>)           \* a body of length zero (present, not JSON)
 J4 == ObjBody([DashLeaves EXCEPT !["v"] = "J4", !["n"] = "null"])
 JB == ObjBody([DashLeaves EXCEPT !["v"] = "JB", !["a"] = "big"])
-BodyOf(t) == CASE t = "JB" -> JB [] t = "J4" -> J4 [] t = "J1" -> J1 [] t = "J2" -> J2 [] t = "J3" -> J3 [] t = "R1" -> R1 [] t = "R2" -> R2
+BodyOf(t) == CASE t = "JB" -> JB [] t = "J4" -> J4 [] t = "J1" -> J1 [] t = "J2" -> J2 [] t = "J3" -> J3 [] t = "R1" -> R1 [] t = "R2" -> R2 [] t = "R0" -> R0
                [] OTHER -> NoBody
 ExpToks == {"0", "E1", "E2", "R1"}
 CasClasses == {"zero", "cur", "stale", "never"}
@@ -71,12 +72,13 @@ ArgsFor(op) ==
            \cup {WithBody([A0 EXCEPT !.exp = "E1"], "JB")}
       [] op = "SetRaw" ->
            {WithBody([A0 EXCEPT !.exp = e, !.pres = p], b) : e \in ExpToks, p \in BOOLEAN, b \in {"R1", "R2"}}
+           \cup {WithBody([A0 EXCEPT !.exp = e], "R0") : e \in {"0", "E1"}}
       [] op = "Add" -> {WithBody([A0 EXCEPT !.exp = e], b) : e \in ExpToks, b \in {"J1", "J2"}}
-      [] op = "AddRaw" -> {WithBody([A0 EXCEPT !.exp = e], b) : e \in {"0", "E1"}, b \in {"J1", "R1"}}
+      [] op = "AddRaw" -> {WithBody([A0 EXCEPT !.exp = e], b) : e \in {"0", "E1"}, b \in {"J1", "R1", "R0"}}
       [] op = "WriteCas" ->
            {WithBody([A0 EXCEPT !.exp = e, !.casc = c, !.opt = o], b) :
                e \in {"0", "E1"}, c \in CasClasses,
-               <<o, b>> \in {<<"", "J1">>, <<"", "J2">>, <<"", "">>, <<"raw", "R1">>, <<"addonly", "J1">>,
+               <<o, b>> \in {<<"", "J1">>, <<"", "J2">>, <<"", "">>, <<"raw", "R1">>, <<"raw", "R0">>, <<"addonly", "J1">>,
                              <<"addonlyraw", "R2">>, <<"append", "R2">>}}
       [] op = "Remove" -> {[A0 EXCEPT !.casc = c] : c \in CasClasses}
       [] op = "Delete" -> {A0}
@@ -249,7 +251,8 @@ C07_MacrosResolveToNewCasAndBody ==
          LET d == store'[last'.coll][last'.key] IN
          \A x \in XNames : last'.a.sets[x].t # "-" =>
             /\ (last'.a.sets[x].mc => d.xa[x].cas = d.cas)
-            /\ (last'.a.sets[x].mh => d.xa[x].crc = d.body)]_vars
+            \* (the checksum of a body of length zero is the checksum of no body)
+            /\ (last'.a.sets[x].mh => d.xa[x].crc = IF d.body = RawBody(<<>>) THEN NoBody ELSE d.body)]_vars
 (* C11: an operation on one collection changes nothing in any other *)
 C11_OtherCollectionsUnchanged ==
     [][last'.op # "PurgeTombstones" =>
